@@ -112,7 +112,10 @@ def item_lines(wd, n, it, pool):
             L += ["s_iter 0 1", "obs " + tmp, "it_drain 1"]
             iterated = True
         elif op[0] == "write" and not iterated:
-            L += ["w_init 5 %s none default 1024 2 -1 0" % outp, "s_write 0 5", "w_close 5", "r_init 5 %s 1 0" % outp,
+            # the writer the sorter is written into shares the sorter's pool in every other pooled run (workers then move
+            # between the sorter's unordered jobs and the writer's ordered ones)
+            wpool = 0 if (pool >= 0 and n % 2 == 0) else -1
+            L += ["w_init 5 %s %s default 1024 2 %d 0" % (outp, "zlib" if wpool == 0 else "none", wpool), "s_write 0 5", "w_close 5", "r_init 5 %s 1 0" % outp,
                   "it_iter 2 r:5", "it_drain 2", "it_destroy 2", "r_destroy 5"]
             iterated = True
         elif op[0] == "write2":
@@ -140,7 +143,7 @@ def run(ctx):
         nonlocal lines, metas, batch
         if not lines:
             return
-        evs, rc, err = core.run_drv(b, "\n".join(lines) + "\n", wd, "s%d" % batch, fork=True, timeout=900)
+        evs, rc, err = core.run_drv(b, "\n".join(lines) + "\n", wd, "s%d" % batch, fork=True, timeout=1500, env={"VS_EXEC_TIMEOUT": "30"})
         recs = core.convert_events(evs)
         execs = core.split_execs(recs)
         out = []
